@@ -140,6 +140,8 @@ def stack_str(items) -> str:
 
 
 def case_line(kind: str, cfg: Cfg, cache: dict, scripts) -> str:
+    if 'timestamp' not in cache:
+        cache = {'timestamp': cfg.now, **cache}      # run_script: {'timestamp': int(time()), **cache_vals}
     return f'{kind} {cfg.line()} {cache_str(cache, drop_returned=False)} ' + ','.join((s.hex() or '-') for s in scripts)
 
 
